@@ -80,7 +80,7 @@ CORPUS = [
     dict(name="C02-writer-copy-to-buffer-start", kind="break", props=["C02"], file="writer.go",
          old="m := copy(w.data[w.idx:], buf)", new="m := copy(w.data, buf)"),
     dict(name="C02-flush-drops-last-byte", kind="break", props=["C02"], file="writer.go",
-         old="if err = w.write(w.data[:w.idx], false); err != nil {", new="if err = w.write(w.data[:w.idx-1], false); err != nil {"),
+         old="if err = w.write(w.data[:w.idx], !w.isNotConcurrent()); err != nil {", new="if err = w.write(w.data[:w.idx-1], !w.isNotConcurrent()); err != nil {"),
     dict(name="C02-readfrom-drops-last-byte", kind="break", props=["C02"], file="writer.go",
          old="err = w.write(data[:rn], true)", new="err = w.write(data[:rn-1], true)"),
     dict(name="C02-direct-block-resends-a-byte", kind="break", props=["C02"], file="writer.go",
@@ -115,6 +115,19 @@ CORPUS = [
          old="\twr.data = nil\n\twr.dataPos = 0\n\twr.ov = wr.ov[ : 0]\n\twr.ovPos = 0\n}", new="\twr.dataPos = 0\n\twr.data = nil\n\twr.ovPos = 0\n\twr.ov = wr.ov[ : 0]\n}"),
     dict(name="C13-benign-rename-local", kind="benign", props=["C13"], file="internal/xxh32/xxh32zero.go",
          old="\tr := len(xxh.buf) - m\n\tif n < r {", new="\troom := len(xxh.buf) - m\n\tif n < room {"),
+    # ---- legacy end-of-stream rule of the concurrent block reader (fixed defect dc6f628) ----
+    dict(name="C06-legacy-trailer-rule-matches-failed-read", kind="break", props=["C06", "C15"], file="internal/lz4stream/block.go",
+         old="if f.isLegacy() && cumx != 0 && cum == cumx {", new="if f.isLegacy() && cum == cumx {"),
+    dict(name="C05-legacy-oversize-word-is-clean-end", kind="break", props=["C05"], file="internal/lz4stream/block.go",
+         old="if f.isLegacy() && cumx != 0 && cum == cumx {", new="if f.isLegacy() && cum == cumx {",
+         old2="\t\treturn x, lz4errors.ErrOptionInvalidBlockSize", new2="\t\treturn 0, lz4errors.ErrOptionInvalidBlockSize"),
+    # ---- renamed locals (the `locals` line of the contract maps the old names by position) ----
+    dict(name="C10-benign-rename-anchor", kind="benign", props=["C10"], file="internal/lz4block/block.go",
+         regex=r"\banchor\b", new="anch"),
+    dict(name="C03-benign-rename-di", kind="benign", props=["C03"], file="internal/lz4block/decode_other.go",
+         regex=r"\bdi\b", new="dpos"),
+    dict(name="C16-benign-rename-reader-locals", kind="benign", props=["C16"], file="reader.go",
+         regex=r"\bdirect\b", new="straight"),
     dict(name="C13-benign-reorder-lanes", kind="benign", props=["C13"], file="internal/xxh32/xxh32zero.go",
          old="\txxh.v[0] = prime1plus2\n\txxh.v[1] = prime2\n", new="\txxh.v[1] = prime2\n\txxh.v[0] = prime1plus2\n"),
 ]
@@ -136,11 +149,22 @@ def main():
             continue
         path = os.path.join(REPO, ent["file"])
         src = open(path).read()
-        if src.count(ent["old"]) != 1:
-            print(f"{ent['name']}: STALE (pattern occurs {src.count(ent['old'])} times)")
-            bad += 1
-            continue
-        open(path, "w").write(src.replace(ent["old"], ent["new"]))
+        if "regex" in ent:
+            import re
+            if not re.search(ent["regex"], src):
+                print(f"{ent['name']}: STALE (regex does not occur)")
+                bad += 1
+                continue
+            out = re.sub(ent["regex"], ent["new"], src)
+        else:
+            if src.count(ent["old"]) != 1 or ("old2" in ent and src.count(ent["old2"]) != 1):
+                print(f"{ent['name']}: STALE (pattern occurs {src.count(ent['old'])} times)")
+                bad += 1
+                continue
+            out = src.replace(ent["old"], ent["new"])
+            if "old2" in ent:
+                out = out.replace(ent["old2"], ent["new2"])
+        open(path, "w").write(out)
         try:
             b = sh(f"cd {REPO} && go build ./... 2>&1")
             if b.returncode != 0:
